@@ -367,7 +367,9 @@ def write_replay(pid, case, trace, verdict, extra):
 
 
 def write_evidence(pid, ev):
-    d = os.path.join(ROOT, 'evidence')
+    # runs against a scratch copy (seeded bugs) must not overwrite the
+    # evidence of /repo itself
+    d = os.path.join(ROOT, 'evidence' if REPO == '/repo' else 'evidence_scratch')
     os.makedirs(d, exist_ok=True)
     json.dump(ev, open(os.path.join(d, pid + '.json'), 'w'), indent=1)
 
